@@ -124,6 +124,7 @@ class Ev:
         self.unrolling = set()
         self.unroll_bounds = {}
         self.unrolled = []
+        self.loc_types = {}        # per analysis: frame ids restart for every entry point
         self.accelerated = []
         self.unroll_work = 0
         self.frames = {}
@@ -167,8 +168,6 @@ class Ev:
             res.append({'pc': s.pc, 'ret': ret, 'store': s.store, 'obls': s.obls, 'notes': s.notes,
                         'params': params})
         return res
-
-    loc_types = {}
 
     # -------------------------------------------------------------------------------- functions
     def loopinfo(self, fn):
